@@ -2,6 +2,7 @@ import Splipy.Lemmas.C08Seam
 import Splipy.Lemmas.C08Merge
 import Splipy.Lemmas.C08Periodicity
 import Splipy.Lemmas.C08Knots
+import Splipy.Lemmas.C08LowerEval
 import Splipy.Lemmas.EvalRow
 import Mathlib.Data.Rat.Floor
 import Mathlib.Tactic.NormNum
@@ -27,10 +28,13 @@ knot tolerance and different from the domain end).  Then `evaluate` returns the 
 or `ValueError`).  Lift of `C01_periodic_any_real` (`evaluate_add_int_mul`) through the tensor
 contraction of `Obj.evaluate`.
 
-`_partial`: the domain end `stop` itself is excluded (its row is the left limit at `stop`, the row
-of `stop + m·T` the right limit at `start`; that these give the same point is seam continuity,
-`C08_seam_smooth` with `d = 0`, proved at the specification level only), and the parameters must be
-exact for the tolerance (a knot or at least `tol` away from every knot). -/
+The domain end `stop` itself is admitted as soon as the seam has multiplicity `< p`
+(`Basis.SeamSimple`, i.e. continuity `≥ 0` really holds) and `start`, `stop` are exact: the value row
+at `stop` (a left limit) equals the value row at `start` (`evaluate_stop_eq_start`, from
+`C08_seam_smooth` with `d = 0` on the periodic continuation of the knots).
+
+`_partial`: only because the parameters must be exact for the tolerance (a knot, or at least `tol`
+away from every knot) — the code snaps other parameters to knots, which is not shift invariant. -/
 theorem C08_periodicity_partial [FloorRing K] (o : Obj K) {tol : K} (htol : 0 < tol)
     (params params' : List (List K))
     (h : ZipShift tol (List.zip o.bases.toList params) (List.zip o.bases.toList params')) :
@@ -48,21 +52,76 @@ theorem C08_seam_smooth (τ : ℕ → K) (hτ : Monotone τ) (n : ℕ) (T : K) (
     splineDeriv .left τ q N c d (τ q + T) = splineDeriv .right τ q N c d (τ q) :=
   periodic_seam_smooth τ hτ n T hper c hc q m d N hT hd hm hN hnN
 
-/-- **Lowering the periodic continuity by one step** (the loop body of `lower_periodic` after the
-insertion of `start`): rolling knots and control points by one index and summing the same number
-`N` of functions gives the same map from the (unchanged) start `τ (q+1)` on.
+/-- **`lower_periodic(k')` — the model's `Obj.lowerPeriodic`** (curves, surfaces, volumes;
+fibre-wise).  `dir` a valid periodic direction (order `p`, continuity `k`, `n` functions) under the
+guard `n ≥ p + k` of periodic knot insertion, control net with `n` rows along `dir`, seam with exactly
+its declared multiplicity (`hseam`: the first knot after the `p` leading ones is larger than `start`).
+For EVERY `k'` with `-1 ≤ k' ≤ k` the call succeeds and returns an object `o'` whose basis along
+`dir` is a VALID basis of CONTINUITY `k'` (for `k' = -1`: a valid non-periodic basis) of the same
+order, start and end, with `n + (k - k')` functions (the seam multiplicity grew by `k - k'`), the
+other bases and `rational` untouched — and THE WRAPPED SPLINE OF EVERY FIBRE IS UNCHANGED: `wsum`
+(value and all derivatives, both sides) at every `t` of the domain.  (`wsum … nAll m c` with
+`nAll = m` is the ordinary `splineDeriv`, which is the case `k' = -1`.)
+Proof: every round is a periodic insertion of `start` (`C04` `PerRefines`, allowed by the guard since
+`start ≠ end`) followed by `roll(1)` / `np.roll(cps, -1)` (shifted periodic sequences,
+`Lemmas/C07Roll.lean`), dropping the function that leaves the window; induction over the rounds
+(`Lemmas/C08Lower.lean`, `LowerInv`).
 
-`_partial`: the step `insert_knot(start)` before the roll must itself preserve the periodic map —
-property C04 for periodic insertion, violated by the pinned code for `n < p + k` — and is not part
-of this statement; that `roll(1)` / `np.roll(cps, -1)` produce the shifted sequences is tested by the
-correspondence run. -/
-theorem C08_lower_periodic_partial (s : Side) (τ : ℕ → K) (hτ : Monotone τ) (q N : ℕ) (c : ℕ → K)
-    (t : K) (ht : s.mem (τ (1 + q)) (τ (N + 1)) t) :
-    splineVal s (fun j => τ (1 + j)) q N (fun j => c (1 + j)) t = splineVal s τ q (N + 1) c t := by
-  have := splineVal_restrict s τ (fun j => τ (1 + j)) hτ q (N + 1) 1 (N + 1) c t (by omega)
-    (le_refl _) (fun j _ => rfl) ht
-  rw [show N + 1 - 1 = N by omega] at this
-  exact this
+`_partial`: the guard `n ≥ p + k` (the pinned code is wrong below it — known finding) and `hseam`. -/
+theorem C08_lower_periodic_partial [FloorRing K] (o : Obj K) (dir : ℕ) (hdir : dir < o.bases.size)
+    (hax : dir < o.cps.shape.length) (hv : (o.basis dir).Valid) (k : ℕ)
+    (hk : (o.basis dir).periodic = (k : Int))
+    (hguard : (o.basis dir).order + k ≤ (o.basis dir).numFunctions)
+    (hshape : o.cps.shape.getD dir 0 = (o.basis dir).numFunctions)
+    (hseam : (o.basis dir).start < (o.basis dir).kn (o.basis dir).order)
+    (k' : Int) (h1 : -1 ≤ k') (h2 : k' ≤ k) :
+    ∃ o', o.lowerPeriodic k' dir = .ok o' ∧
+      (o'.basis dir).Valid ∧ (o'.basis dir).periodic = k' ∧
+      (o'.basis dir).order = (o.basis dir).order ∧
+      (o'.basis dir).numFunctions = (o.basis dir).numFunctions + ((k : Int) - k').toNat ∧
+      (o'.basis dir).start = (o.basis dir).start ∧ (o'.basis dir).stop = (o.basis dir).stop ∧
+      (∀ d, d ≠ dir → o'.basis d = o.basis d) ∧ o'.rational = o.rational ∧
+      o'.cps.shape = o.cps.shape.set dir ((o.basis dir).numFunctions + ((k : Int) - k').toNat) ∧
+      ∀ a i, a < C04.outerN o dir → i < C04.innerN o dir → ∀ (s : Side) (d : ℕ) (t : K),
+        s.mem (o.basis dir).start (o.basis dir).stop t →
+        C04.wsum s (o'.basis dir).kn ((o.basis dir).order - 1) (o'.basis dir).nAll
+            (o'.basis dir).numFunctions (C04.fibre o' dir a i) d t
+          = C04.wsum s (o.basis dir).kn ((o.basis dir).order - 1) (o.basis dir).nAll
+            (o.basis dir).numFunctions (C04.fibre o dir a i) d t := by
+  obtain ⟨o', hl, hI⟩ := lowerPeriodic_spec o dir hdir hax hv k hk hguard hshape hseam k' h1 h2
+  refine ⟨o', hl, hI.valid, ?_, hI.order_eq, hI.num_eq, hI.start_eq, hI.stop_eq, hI.other,
+    hI.rational_eq, hI.shape_eq, fun a i ha hi s d t ht => ?_⟩
+  · rw [hI.periodic_eq, hk]; omega
+  · rw [hI.nAll_eq, hI.num_eq]; exact hI.same a i ha hi s d t ht
+
+/-- Raising the periodicity is rejected with `ValueError`. -/
+theorem C08_lower_periodic_raise [FloorRing K] (o : Obj K) (dir : ℕ) (k' : Int)
+    (h : (o.basis dir).periodic < k') : o.lowerPeriodic k' dir = .error .value :=
+  lowerPeriodic_raise o dir k' h
+
+/-- **`lower_periodic` on curves and the real evaluator.**  Curve (rational or not) over a valid
+periodic basis `b1` with `n ≥ p + k` and `hseam`; `-1 ≤ k' ≤ k`; `tol > 0`; parameters `us`
+admissible for `b1` (tolerance comparisons exact at `u` and at the wrapped point) and — when the
+result is non-periodic, `k' = -1` — inside `[start, end]`.  Then `lower_periodic(k')` succeeds and
+`o'.evaluate tol [us] = o.evaluate tol [us]` (the same tensor) provided the parameters are admissible
+for the new basis too.  Via `Lemmas/BridgeTransfer.lean` (`transfer_curve`) and
+`C04.specRow_sum_periodic`.  `_partial`: as `C08_lower_periodic_partial`; surfaces/volumes are covered
+fibre-wise by that theorem only. -/
+theorem C08_lower_periodic_curve_partial [FloorRing K] {o : Obj K} {b1 : Basis K}
+    (hb : o.bases = #[b1]) (hv1 : b1.Valid) (k : ℕ) (hk : b1.periodic = (k : Int))
+    (hguard : b1.order + k ≤ b1.numFunctions) {nc : ℕ}
+    (hs : o.cps.shape = [b1.numFunctions, nc]) (hnc : o.rational = true → 1 ≤ nc)
+    (hseam : b1.start < b1.kn b1.order) (k' : Int) (h1 : -1 ≤ k') (h2 : k' ≤ k)
+    {tol : K} (htol : 0 < tol) {us : List K} (hus : ∀ u ∈ us, b1.Admissible tol u)
+    (hdom : k' = -1 → ∀ u ∈ us, b1.start ≤ u ∧ u ≤ b1.stop) :
+    ∃ o', o.lowerPeriodic k' 0 = .ok o' ∧ (o'.basis 0).Valid ∧ (o'.basis 0).periodic = k' ∧
+      ((∀ u ∈ us, (o'.basis 0).Admissible tol u) →
+        o'.evaluate tol [us] true = o.evaluate tol [us] true) := by
+  obtain ⟨o', hl, hI, he⟩ :=
+    lowerPeriodic_evaluate_curve hb hv1 k hk hguard hs hnc hseam k' h1 h2 htol hus hdom
+  have hb0 : o.basis 0 = b1 := by simp [Obj.basis, hb]
+  refine ⟨o', hl, hI.valid, ?_, he⟩
+  rw [hI.periodic_eq, hb0, hk]; omega
 
 /-- **Round trip, continuity `k ≤ 1`.**  `cps` is the control net of the curve opened at the seam
 (`n + k + 1` rows along `dir`), `c` the periodic net it came from; opening leaves the rows
@@ -227,10 +286,11 @@ theorem C08_exPer_valid : C08_exPer.Valid where
     interval_cases i <;>
       norm_num [Basis.start, Basis.stop, Basis.kn, Basis.numFunctions, C08_exPer]
 
+
 /-- `1/2` and `1/2 + 2·3` are related by `PeriodShift` for `C08_exPer` (period 3), so the
 hypothesis of `C08_periodicity_partial` is satisfiable with a genuine shift. -/
 example : C08_exPer.PeriodShift (1/1000) (1/2) (13/2) := by
-  refine Or.inr ⟨C08_exPer_valid, by decide, ?_, ?_, ?_, ?_, 2, ?_⟩
+  refine Or.inr ⟨C08_exPer_valid, by decide, ?_, ?_, Or.inl ⟨?_, ?_⟩, 2, ?_⟩
   · intro i hi
     have hi' : i < 8 := hi
     interval_cases i <;> norm_num [Basis.kn, C08_exPer, abs_of_nonneg, abs_of_neg]
@@ -241,5 +301,33 @@ example : C08_exPer.PeriodShift (1/1000) (1/2) (13/2) := by
   · norm_num [Basis.stop, Basis.kn, C08_exPer]
   · norm_num [Basis.start, Basis.stop, Basis.kn, C08_exPer]
 
+/-- The seam alternative: the domain end `3` itself and `3 + 3 = 6` (which wraps to `start`). -/
+example : C08_exPer.PeriodShift (1/1000) 3 6 := by
+  have ex : ∀ t : ℚ, t ∈ ({0, 3, 6} : Set ℚ) → C08_exPer.ExactAt (1/1000) t := by
+    intro t ht i hi
+    have hi' : i < 8 := hi
+    rcases ht with rfl | rfl | rfl <;> interval_cases i <;>
+      norm_num [Basis.kn, C08_exPer, abs_of_nonneg, abs_of_neg]
+  have hst : C08_exPer.start = 0 := by norm_num [Basis.start, Basis.kn, C08_exPer]
+  have hsp : C08_exPer.stop = 3 := by norm_num [Basis.stop, Basis.kn, C08_exPer]
+  refine Or.inr ⟨C08_exPer_valid, by decide, ex 3 (by simp), ex 6 (by simp), Or.inr ⟨?_, ?_, ?_⟩, 1, ?_⟩
+  · intro j hj h0
+    have hj' : j + 2 < 8 := hj
+    have hj'' : j < 6 := by omega
+    rw [hst] at h0 ⊢
+    interval_cases j
+    all_goals first | (norm_num [Basis.kn, C08_exPer] at h0; done) | norm_num [Basis.kn, C08_exPer]
+  · rw [hst]; exact ex 0 (by simp)
+  · rw [hsp]; exact ex 3 (by simp)
+  · rw [hst, hsp]; norm_num
+
 /-- `C08_exPer` has `n = 4 ≥ p - 1 = 2` functions: the hypotheses of `C08_make_periodic_knots` hold. -/
 example : C08_exPer.order ≤ C08_exPer.numFunctions + 1 ∧ 0 ≤ C08_exPer.periodic := by decide
+
+/-- Guard and seam hypothesis of `C08_lower_periodic_partial` hold for `C08_exPer`
+(`p = 3`, `k = 0`, `n = 4`; the knot after the three leading ones is `1 > start = 0`). -/
+example : C08_exPer.order + 0 ≤ C08_exPer.numFunctions ∧
+    C08_exPer.start < C08_exPer.kn C08_exPer.order := by
+  constructor
+  · decide
+  · norm_num [Basis.start, Basis.kn, C08_exPer]
